@@ -21,12 +21,28 @@ def execute(rel):
             msgs = [cache.setdefault(json.dumps(m, sort_keys=True), P.mk(m)) for m in rel]
         else:
             msgs = [P.mk(m) for m in rel]
-        s = Sequence(relative_sequence=RelativeSequence(msgs))
+        if len(rel) % 3 == 1:
+            # history: the object was normalised before (holding other content of the same length) and its messages were
+            # then edited in place through messages_rel() into the input of this case
+            s = Sequence()
+            for i in range(len(rel)):
+                s.add_relative_message(P.mk(P.cc(-1, i % 100, i % 100)))
+            s.normalise()
+            for m, t in zip(s.messages_rel(), msgs):
+                for a in ("message_type", "channel", "time", "note", "velocity", "control", "program", "numerator",
+                          "denominator", "key"):
+                    setattr(m, a, getattr(t, a))
+            if P.raw_rel(s) != [P.msg(m) for m in msgs]:
+                raise core.MachineryError("in-place edit route did not produce the input")
+        else:
+            s = Sequence(relative_sequence=RelativeSequence(msgs))
         line["in"] = [P.msg(m) for m in s.rel._messages]
         s.normalise()
         line["out"] = P.raw_rel(s)
         s.normalise()
         line["out2"] = P.raw_rel(s)
+    except core.MachineryError:
+        raise
     except Exception as e:
         line["raised"] = f"{type(e).__name__}: {e}"
     return line
